@@ -1027,8 +1027,15 @@ bool fstack_check_filter(struct uftrace_task_reader *task)
 		fstack_update(UFTRACE_EXIT, task, fstack);
 	}
 	else if (task->rstack->type == UFTRACE_EVENT) {
-		/* don't change filter state, just check it */
-		if (task->filter.out_count > 0 || task->filter.depth <= 0 ||
+		/*
+		 * don't change filter state, just check it: an event belongs to
+		 * the innermost open function and is shown with it (the depth
+		 * budget is already used up inside the deepest function that is
+		 * shown, and it is not touched by the functions beyond it).
+		 */
+		fstack = fstack_get(task, task->stack_count - 1);
+		if (task->filter.out_count > 0 || (fstack && (fstack->flags & FSTACK_FL_NORECORD)) ||
+		    (fstack == NULL && task->filter.depth <= 0) ||
 		    (fstack_get_filter_mode() == FILTER_MODE_IN && task->filter.in_count == 0))
 			return false;
 
